@@ -470,6 +470,68 @@ theorem authenticated_was_signed {D Sig : Type} (H : Bytes → D) (hH : Function
   have := (authed_valid p dec s ops hlog b hb).2.1
   exact tx_signature_sound H hH verify log hideal Lk Ls hlogwf chain (blob b) hk _ (sg b) (hdec b this)
 
+/-- **no_replay (signed content).** Stronger than `no_replay`, and independent of how an envelope is
+encoded: in any history no two authenticated transactions — whatever their raw bytes — carry the same
+(signer, nonce). In particular re-encoding an envelope (the CBOR key-case malleability the correspondence
+found in the Go decoder) cannot make signed content take effect twice. -/
+theorem no_replay_content (p : Params) (dec : Bytes → Decoded) (s : State) (ops : List Op)
+    (hlog : s.authed = []) (hnw : ∀ a, (s.acct a).nonce + ops.length < nonceMod) :
+    ((run p dec s ops).authed.map (fun b => ((dec b).signer, (dec b).nonce))).Nodup := by
+  apply nodup_pairs_of_classes _ (fun b => (dec b).signer) (fun b => (dec b).nonce)
+  intro a
+  have := (seqInv_run p dec _ ops s (seqInv_init dec s hlog) hnw a).2
+  unfold authedNonces at this
+  rw [this]
+  have hr : (List.range' (s.acct a).nonce (((run p dec s ops).acct a).nonce - (s.acct a).nonce)).Nodup :=
+    List.nodup_range' (s := (s.acct a).nonce)
+  unfold List.Nodup at *
+  rw [List.pairwise_reverse]
+  exact hr.imp (fun h => h.symm)
+
+/-- CheckTx and simulation never write: whatever `AuthenticateAndPayFees` answers in these modes, accounts
+and fee accumulator are returned unchanged. -/
+theorem authenticate_check_simulate_no_write (p : Params) (m : Mode) (hm : m ≠ .deliver)
+    (acct : Nat → Account) (feeAcc signer nonce feeAmt feeGas : Nat) (acct' : Nat → Account) (fee' : Nat)
+    (h : authenticate p m acct feeAcc signer nonce feeAmt feeGas = .ok (acct', fee')) :
+    acct' = acct ∧ fee' = feeAcc := by
+  unfold authenticate at h
+  cases m with
+  | deliver => exact absurd rfl hm
+  | simulate => simp at h; exact ⟨h.1.symm, h.2.symm⟩
+  | check =>
+    simp only [reduceCtorEq, if_false, if_true] at h
+    split at h
+    · cases h
+    · split at h
+      · cases h
+      · split at h
+        · cases h
+        · split at h
+          · cases h
+          · simp at h; exact ⟨h.1.symm, h.2.symm⟩
+
+/-- The statement on the Go-shaped function: whatever `WithSuffix`/`PrepareSignerContext` return for two
+uses of registered contexts, equal `context ‖ message` strings force equal registration, suffix, chain and
+message (common lengths of suffix values and of chain ids assumed). -/
+theorem prepared_sign_input_injective {D : Type} (H : Bytes → D) (hH : Function.Injective H)
+    (t : List Ctx) (hpf : headsPrefixFree t = true) (c₁ c₂ : Ctx) (h₁ : c₁ ∈ t) (h₂ : c₂ ∈ t)
+    (s₁ s₂ : Option Bytes) (k₁ k₂ o₁ o₂ m₁ m₂ : Bytes)
+    (hp₁ : prepare c₁ s₁ k₁ = .ok o₁) (hp₂ : prepare c₂ s₂ k₂ = .ok o₂)
+    (hs : (s₁.getD []).length = (s₂.getD []).length) (hk : k₁.length = k₂.length)
+    (h : H (o₁ ++ m₁) = H (o₂ ++ m₂)) :
+    c₁ = c₂ ∧ (c₁.dyn.isSome → s₁.getD [] = s₂.getD []) ∧ (c₁.chain = true → k₁ = k₂) ∧ m₁ = m₂ := by
+  rw [prepare_eq_effective c₁ s₁ k₁ o₁ hp₁, prepare_eq_effective c₂ s₂ k₂ o₂ hp₂] at h
+  exact signPre_injective t hpf c₁ c₂ h₁ h₂ _ _ k₁ k₂ m₁ m₂ (fun _ _ => hs) (fun _ _ => hk) (hH h)
+
+/-- Uniqueness of registrations (all that `NewContext` enforces at run time, besides the per-entry checks)
+does not give domain separation: two distinct well-formed registrations can collide. This is why the
+obligation on the table is prefix-freeness. -/
+theorem uniqueness_is_not_enough :
+    ∃ c d : Ctx, c ≠ d ∧ newContextOk c = true ∧ newContextOk d = true ∧ c.raw ≠ d.raw ∧
+      signPre c [] [] [32, 120] = signPre d [] [] [] :=
+  ⟨{ raw := [114], chain := false, dyn := none }, { raw := [114, 32, 120], chain := false, dyn := none },
+   by decide, by decide, by decide, by decide, by decide⟩
+
 /-! ## Non-vacuity: the hypotheses of the theorems are satisfiable by concrete non-trivial instances -/
 
 section NonVacuity
